@@ -5,6 +5,7 @@ Property theorems about Core/Args.lean (`bindPlan` = the decisions of
 `FormalArgs::eval`) and Core/Eval.lean (`callClosure`, `exec`, `@content`).
 -/
 import RsassModel.Core.LemmasScope
+import RsassModel.Core.LemmasArgs
 import RsassModel.Core.Eval
 namespace C18
 open Core
@@ -186,5 +187,297 @@ theorem closure_sees_definition_scope (h : Heap) (wf : h.WF) (d : Nat) (hd : d <
     simp only [varsAt, hc]
   simp only [List.findSome?_cons, hva, hvc, getAssoc]
   exact (Heap.Ext.trans e1 e2).lookup wf hd x
+
+/-! ## argument binding -/
+
+/-- **bind_errors, soundness.**  Each of the listed conditions — too many positional
+arguments, an argument passed by position and by name, a missing argument, an unknown
+argument name (the last two names compared with `-`/`_` identified) — makes the
+specified binding fail. -/
+theorem bind_errors_sound (ps : Params) (c : CallArgs) (h : specArgError ps c = true) :
+    bindPlan specArgQuirks ps c = .error .err := by
+  unfold bindPlan
+  simp only [specArgQuirks, Bool.not_false, Bool.true_and]
+  split
+  · rfl
+  next hA =>
+  split
+  · rfl
+  next hB =>
+  simp only [specArgError, Bool.or_eq_true] at h
+  have hB' : (ps.ps.take c.pos.length).any (fun p => hasKey (normName p.1) c.named) = false := by
+    simpa using hB
+  rw [drop_take_length]
+  rcases h with ((h | h) | h) | h
+  · -- too many positional
+    exfalso
+    simp only [Bool.and_eq_true, decide_eq_true_eq] at h
+    apply hA
+    simp only [Bool.and_eq_true, decide_eq_true_eq]
+    exact ⟨h.1, by omega⟩
+  · simp [hB'] at h
+  · rw [bindRemaining_missing _ _ h]
+  · -- unknown name, no rest parameter
+    simp only [Bool.and_eq_true] at h
+    obtain ⟨hrest, hunk⟩ := h
+    cases hbr : bindRemaining (ps.ps.drop c.pos.length) c.named with
+    | error e =>
+      have := bindRemaining_error_is_err _ _ _ hbr
+      subst this
+      rfl
+    | ok res =>
+      obtain ⟨b2, nm⟩ := res
+      simp only
+      cases hr : ps.rest with
+      | some r => simp [hr] at hrest
+      | none =>
+        simp only
+        have hnm := bindRemaining_named _ _ _ _ hbr
+        rw [List.any_eq_true] at hunk
+        obtain ⟨kv, hkv, hnot⟩ := hunk
+        have hk : hasKey kv.1 nm = true := by
+          rw [hnm, hasKey_eraseAll]
+          have h1 : hasKey kv.1 c.named = true := (hasKey_iff_mem _ _).mpr (List.mem_map.mpr ⟨kv, hkv, rfl⟩)
+          have h2 : (ps.ps.drop c.pos.length).any (fun p => normName p.1 = kv.1) = false := by
+            rw [List.any_eq_false]
+            intro p hp
+            simp only [Bool.not_eq_true', List.any_eq_false] at hnot
+            have := hnot p (List.mem_of_mem_drop hp)
+            simpa using this
+          simp [h1, h2]
+        have : nm.isEmpty = false := by
+          cases nm with
+          | nil => simp [hasKey, getAssoc] at hk
+          | cons a t => rfl
+        simp [this]
+
+/-- **bind_errors, completeness + bind_order.**  With pairwise distinct parameter names
+and an `OrderMap` of named arguments (distinct keys), if none of the four error
+conditions holds the specified binding succeeds, and it binds, in parameter order:
+the positional arguments by position; then each remaining parameter to the named argument
+of its (normalised) name if there is one, else to its default expression (evaluated later
+by `runBinds`, left to right, in the callee scope); the positional extras and the named
+arguments not consumed go to the rest parameter as an argument list (whose keywords
+`keywords()` reports). -/
+theorem bind_order (ps : Params) (c : CallArgs)
+    (hp : (ps.ps.map fun p => normName p.1).Nodup) (hn : (c.named.map (·.1)).Nodup)
+    (h : specArgError ps c = false) :
+    ∃ b2, bindPlan specArgQuirks ps c = .ok
+        { binds := ((ps.ps.zip c.pos).map fun (p, v) => (normName p.1, Binding.val v)) ++ b2,
+          rest := ps.rest.map fun r => (normName r,
+            RestVal.arglist (c.pos.drop ps.ps.length) (eraseAll (ps.ps.drop c.pos.length) c.named)) }
+      ∧ b2.map (·.1) = (ps.ps.drop c.pos.length).map (fun p => normName p.1)
+      ∧ ∀ i (hi : i < (ps.ps.drop c.pos.length).length), ∃ b,
+          b2[i]? = some (normName (ps.ps.drop c.pos.length)[i].1, b) ∧
+          (match getAssoc (normName (ps.ps.drop c.pos.length)[i].1) c.named with
+           | some v => b = Binding.val v
+           | none => ∃ e, (ps.ps.drop c.pos.length)[i].2 = some e ∧ b = Binding.dflt e) := by
+  simp only [specArgError, Bool.or_eq_false_iff] at h
+  obtain ⟨⟨⟨hmany, hdup⟩, hmiss⟩, hunk⟩ := h
+  have hndl : ((ps.ps.drop c.pos.length).map fun p => normName p.1).Nodup := by
+    rw [List.map_drop]
+    exact hp.sublist (List.drop_sublist _ _)
+  obtain ⟨bs, hbs, hnames, hvals⟩ := bindRemaining_ok (ps.ps.drop c.pos.length) c.named hndl hmiss
+  refine ⟨bs, ?_, hnames, hvals⟩
+  unfold bindPlan
+  simp only [specArgQuirks, Bool.not_false, Bool.true_and]
+  -- keys of the named arguments all name parameters after the positional ones (when there is no rest)
+  have hkeys : ps.rest.isNone = true → ∀ y ∈ c.named.map (·.1), y ∈ (ps.ps.drop c.pos.length).map (fun p => normName p.1) := by
+    intro hr y hy
+    have hunk' : c.named.any (fun kv => !(ps.ps.any fun p => normName p.1 = kv.1)) = false := by
+      simpa [hr] using hunk
+    rw [List.any_eq_false] at hunk'
+    obtain ⟨kv, hkv, rfl⟩ := List.mem_map.mp hy
+    have := hunk' kv hkv
+    obtain ⟨p, hpm, hpe⟩ : ∃ p ∈ ps.ps, normName p.1 = kv.1 := by simpa using this
+    -- p is not among the first `k`
+    have hsplit : ps.ps = ps.ps.take c.pos.length ++ ps.ps.drop c.pos.length := (List.take_append_drop _ _).symm
+    rw [hsplit, List.mem_append] at hpm
+    rcases hpm with hpt | hpd
+    · exfalso
+      rw [List.any_eq_false] at hdup
+      have := hdup p hpt
+      have hk : hasKey (normName p.1) c.named = true := by
+        rw [hpe]; exact (hasKey_iff_mem _ _).mpr hy
+      simp [hk] at this
+    · exact List.mem_map.mpr ⟨p, hpd, hpe⟩
+  have hA : ¬ ((ps.rest.isNone && decide (c.pos.length + c.named.length > ps.ps.length)) = true) := by
+    intro hA
+    simp only [Bool.and_eq_true, decide_eq_true_eq] at hA
+    obtain ⟨hr, hgt⟩ := hA
+    have hk : c.pos.length ≤ ps.ps.length := by
+      simp only [hr, Bool.true_and, decide_eq_false_iff_not] at hmany
+      omega
+    have := nodup_subset_length _ _ hn (hkeys hr)
+    simp only [List.length_map, List.length_drop] at this
+    omega
+  rw [if_neg hA, if_neg (by simpa using hdup), drop_take_length, hbs]
+  simp only [zip_take_take]
+  cases hr : ps.rest with
+  | some r => simp
+  | none =>
+    have hempty : eraseAll (ps.ps.drop c.pos.length) c.named = [] := by
+      apply eq_nil_of_no_key
+      intro y
+      rw [hasKey_eraseAll]
+      cases hy : hasKey y c.named with
+      | false => rfl
+      | true =>
+        have hm := hkeys (by simp [hr]) y ((hasKey_iff_mem _ _).mp hy)
+        obtain ⟨p, hpd, hpe⟩ := List.mem_map.mp hm
+        have : (ps.ps.drop c.pos.length).any (fun p => normName p.1 = y) = true := by
+          rw [List.any_eq_true]; exact ⟨p, hpd, by simpa using hpe⟩
+        simp [this]
+    simp [hempty]
+
+/-- the hypotheses are met by a real call: `m($a, $b: $a + 1, $r...)` called `m(1, 2, 3, $k-k: 4)` -/
+example : specArgError ⟨[("a".toList, none), ("b".toList, some (.add (.var "a".toList) (.num 1)))], some "r".toList⟩
+    { pos := [V.num 1, V.num 2, V.num 3], named := [("k_k".toList, V.num 4)] } = false := by decide
+
+/-- `-` and `_` are the same character in every name comparison the binding makes -/
+theorem dash_underscore_identified (n : Name) : normName (showName n) = normName n := by
+  simp only [normName, showName, List.map_map]
+  apply List.map_congr_left
+  intro c _
+  by_cases h1 : c = '_'
+  · subst h1; decide
+  · by_cases h2 : c = '-'
+    · subst h2; decide
+    · simp [h1, h2]
+
+/-- **defaults see earlier parameters**: `runBinds` evaluates a default in the argscope
+`a` after the bindings before it have been inserted there (definitional unfolding of the
+`argscope.define(..)` sequence) -/
+theorem default_evaluated_in_callee_scope (fuel : Nat) (cfg : Cfg) (a : Nat) (x y : Name) (v : V) (e : Expr)
+    (r : List (Name × Binding)) (st : St) :
+    runBinds (fuel + 2) cfg a ((x, .val v) :: (y, .dflt e) :: r) st =
+      (match evalExpr fuel cfg a e { st with heap := insertLocal st.heap a x v } with
+       | .error err' => .error err'
+       | .ok (w, st') => runBinds fuel cfg a r { st' with heap := insertLocal st'.heap a y w }) := by
+  simp only [runBinds]
+  cases evalExpr fuel cfg a e { st with heap := insertLocal st.heap a x v } with
+  | error e' => rfl
+  | ok res => obtain ⟨w, st'⟩ := res; rfl
+
+/-! ## the code as it is -/
+
+/-- **bind_errors_partial.**  Without a rest parameter the code's decision logic and the
+specified one agree on *whether* the call is an error, for every call: the missing
+"passed by position and by name" test is subsumed by TooMany / Missing / Unexpected. -/
+theorem bind_errors_partial_no_rest (ps : Params) (c : CallArgs) (hrest : ps.rest = none)
+    (hp : (ps.ps.map fun p => normName p.1).Nodup) (q : ArgQuirks) :
+    (bindPlan q ps c).toOption.isSome = (bindPlan specArgQuirks ps c).toOption.isSome := by
+  obtain ⟨qd, qo⟩ := q
+  unfold bindPlan
+  simp only [hrest, specArgQuirks, Option.isNone_none, Bool.true_and, Bool.not_false]
+  by_cases hA : decide (c.pos.length + c.named.length > ps.ps.length) = true
+  · simp only [hA, if_true]
+  · simp only [hA, Bool.false_eq_true, if_false]
+    by_cases hX : ((ps.ps.take c.pos.length).any fun p => hasKey (normName p.1) c.named) = true
+    · cases qd with
+      | false => simp only [hX, Bool.not_false, Bool.true_and, if_true]
+      | true =>
+        simp only [hX, Bool.not_true, Bool.false_and, Bool.false_eq_true, if_false, if_true]
+        -- the duplicate is reported by the spec; the code runs on and must fail as well
+        rw [drop_take_length]
+        cases hbr : bindRemaining (ps.ps.drop c.pos.length) c.named with
+        | error e => rfl
+        | ok res =>
+          obtain ⟨b2, nm⟩ := res
+          simp only
+          have hnm := bindRemaining_named _ _ _ _ hbr
+          rw [List.any_eq_true] at hX
+          obtain ⟨p, hpt, hpk⟩ := hX
+          -- the duplicated name survives the loop: no later parameter carries the same name
+          have hlate : (ps.ps.drop c.pos.length).any (fun p' => normName p'.1 = normName p.1) = false := by
+            rw [List.any_eq_false]
+            intro p' hp' heq
+            have heq : normName p'.1 = normName p.1 := by simpa using heq
+            have hsplit : ps.ps = ps.ps.take c.pos.length ++ ps.ps.drop c.pos.length := (List.take_append_drop _ _).symm
+            rw [hsplit, List.map_append, List.nodup_append] at hp
+            exact hp.2.2 _ (List.mem_map.mpr ⟨p, hpt, rfl⟩) _ (List.mem_map.mpr ⟨p', hp', rfl⟩) heq.symm
+          have hk : hasKey (normName p.1) nm = true := by
+            rw [hnm, hasKey_eraseAll]
+            simp [hpk, hlate]
+          have : nm.isEmpty = false := by
+            cases nm with
+            | nil => simp [hasKey, getAssoc] at hk
+            | cons a t => rfl
+          simp [this, Except.toOption]
+    · have hX' : ((ps.ps.take c.pos.length).any fun p => hasKey (normName p.1) c.named) = false := by
+        simpa using hX
+      simp only [hX', Bool.and_false, Bool.false_eq_true, if_false]
+
+/-- the hypothesis-free part: with any flags, whatever the code accepts without a rest
+parameter it binds exactly as specified (same plan) -/
+theorem bind_partial_same_plan (ps : Params) (c : CallArgs) (hrest : ps.rest = none) (q : ArgQuirks)
+    (plan : Plan) (h : bindPlan specArgQuirks ps c = .ok plan) : bindPlan q ps c = .ok plan := by
+  obtain ⟨qd, qo⟩ := q
+  unfold bindPlan at h ⊢
+  simp only [hrest, specArgQuirks, Option.isNone_none, Bool.true_and, Bool.not_false] at h ⊢
+  split at h
+  · simp at h
+  next hA =>
+  split at h
+  · simp at h
+  next hB =>
+  rw [if_neg hA]
+  have : ¬ ((!qd && (ps.ps.take c.pos.length).any fun p => hasKey (normName p.1) c.named) = true) := by
+    intro hc
+    simp only [Bool.and_eq_true] at hc
+    exact hB hc.2
+  rw [if_neg this]
+  exact h
+
+/-- **refutations** (the witnesses of the registered findings), on the decision function … -/
+theorem asis_rest_swallows_duplicate :
+    let ps : Params := ⟨[("a".toList, none)], some "r".toList⟩
+    let c : CallArgs := { pos := [V.num 1], named := [("a".toList, V.num 2)] }
+    specArgError ps c = true
+    ∧ (bindPlan asisArgQuirks ps c).toOption.map (·.rest) =
+        some (some ("r".toList, RestVal.arglist [] [("a".toList, V.num 2)])) := by
+  decide
+
+theorem asis_only_named_replaces_rest :
+    let ps : Params := ⟨[], some "r".toList⟩
+    let c : CallArgs := { pos := [], named := [("r".toList, V.num 6)] }
+    specArgError ps c = false
+    ∧ (bindPlan asisArgQuirks ps c).toOption.map (·.rest) = some (some ("r".toList, RestVal.direct (V.num 6)))
+    ∧ (bindPlan specArgQuirks ps c).toOption.map (·.rest) =
+        some (some ("r".toList, RestVal.arglist [] [("r".toList, V.num 6)])) := by
+  decide
+
+def nm (s : String) : Name := s.toList
+
+/-- … and on whole programs: `@mixin m($a, $r...) { r{p1: $a} r{p2: inspect(keywords($r))} } @include m(1, $a: 2)` -/
+theorem refute_dup_with_rest :
+    let p := [Stmt.mixin (nm "m") ⟨[(nm "a", none)], some (nm "r")⟩
+        [.emit (nm "p1") (.var (nm "a")), .emit (nm "p2") (.inspect (.keywords (.var (nm "r"))))],
+      .incl (nm "m") [(.pos, .num 1), (.named (nm "a"), .num 2)] false .none []]
+    (runProgram specCfg 60 p).toOption = none
+    ∧ (runProgram asisCfg 60 p).toOption = some [(nm "p1", "1".toList), (nm "p2", "(a: 2)".toList)] := by
+  decide +kernel
+
+theorem refute_only_named_rest :
+    let p := [Stmt.mixin (nm "m") ⟨[], some (nm "r")⟩
+        [.emit (nm "p1") (.inspect (.var (nm "r"))), .emit (nm "p2") (.inspect (.keywords (.var (nm "r"))))],
+      .incl (nm "m") [(.named (nm "r"), .num 6)] false .none []]
+    (runProgram specCfg 60 p).toOption = some [(nm "p1", "()".toList), (nm "p2", "(r: 6)".toList)]
+    ∧ (runProgram asisCfg 60 p).toOption = none := by
+  decide +kernel
+
+/-- closures, content blocks and `using` on whole programs (spec and as-is agree):
+`$v: g; @function rd() { @return $v } @mixin w($q) { $v: in-w; @content($q) }
+ a { $v: site; @include w(1) using ($x) { r{p1: $v} r{p2: $x} r{p3: rd()} } }` -/
+theorem example_closure_and_content :
+    let p := [Stmt.decl (nm "v") (.ident (nm "g")) false false,
+      .func (nm "rd") .none [.ret (.var (nm "v"))],
+      .mixin (nm "w") ⟨[(nm "q", none)], none⟩ [.decl (nm "v") (.ident (nm "in-w")) false false, .content [(.pos, .var (nm "q"))]],
+      .rule [.decl (nm "v") (.ident (nm "site")) false false,
+        .incl (nm "w") [(.pos, .num 1)] true ⟨[(nm "x", none)], none⟩
+          [.emit (nm "p1") (.var (nm "v")), .emit (nm "p2") (.var (nm "x")), .emit (nm "p3") (.call (nm "rd") [])]]]
+    (runProgram specCfg 80 p).toOption = some [(nm "p1", nm "site"), (nm "p2", nm "1"), (nm "p3", nm "g")]
+    ∧ (runProgram asisCfg 80 p).toOption = some [(nm "p1", nm "site"), (nm "p2", nm "1"), (nm "p3", nm "g")] := by
+  decide +kernel
 
 end C18
